@@ -73,8 +73,9 @@ def _iter_chunked(read, buff_size):
             if not part:
                 raise parsing_err
             yield part
-            rest_len -= part_size
-        if read(2) != rn:
+            rest_len -= len(part)
+        # the terminator may arrive split over two reads: take it byte by byte
+        if read(1) != r or read(1) != n:
             raise parsing_err
 
 
